@@ -194,6 +194,7 @@ Outcome RunC03(RunCtx& ctx)
 	GenCfg g;
 	g.archive = archive;
 	g.allowIntKeys = archive == A_MSGPACK || archive == A_JSON;
+	g.binAsArray = true;
 	g.maxNodes = 24;
 	g.maxDepth = 3;
 	if (s.chance(sim::L_CFG, 1, 2)) g.kindMask = s.draw(sim::L_CFG, 0xFFFFFFFFu) | (1u << static_cast<int>(K::I32));
